@@ -124,6 +124,9 @@ func (its *PushPullHandler) validatePushPullPack() errors.OrdaError {
 
 func (its *PushPullHandler) initialize(retCh chan *model.PushPullPack) errors.OrdaError {
 	its.retCh = retCh
+	if its.gotPushPullPack.CheckPoint == nil {
+		its.gotPushPullPack.CheckPoint = model.NewCheckPoint()
+	}
 	its.resPushPullPack = its.gotPushPullPack.GetResponsePushPullPack()
 	its.resPushPullPack.Option = uint32(model.PushPullBitNormal)
 
@@ -134,8 +137,8 @@ func (its *PushPullHandler) initialize(retCh chan *model.PushPullPack) errors.Or
 func (its *PushPullHandler) finalize() {
 	if r := recover(); r != nil {
 		its.ctx.L().Errorf("recover panic [%v]: %v", r, string(debug.Stack()))
-
-		return
+		// the caller waits on retCh: a handler that panicked still has to answer and to unlock
+		its.err = errors.PushPullAbortionOfServer.New(its.ctx.L(), fmt.Sprintf("%v", r))
 	}
 	defer its.lock.Unlock()
 	if its.err == nil {
@@ -185,15 +188,20 @@ func (its *PushPullHandler) logInitialConditions() {
 
 func (its *PushPullHandler) process(retCh chan *model.PushPullPack) {
 
-	its.lock.TryLock()
-
 	defer its.finalize()
 
-	if its.err = its.validatePushPullPack(); its.err != nil {
+	// finalize answers through what initialize sets up, so it comes first
+	if its.err = its.initialize(retCh); its.err != nil {
 		return
 	}
 
-	if its.err = its.initialize(retCh); its.err != nil {
+	if !its.lock.TryLock() {
+		// never touch the datatype without its lock: two handlers would hand out the same sseq
+		its.err = errors.PushPullAbortionOfServer.New(its.ctx.L(), "fail to lock "+its.getLockKey())
+		return
+	}
+
+	if its.err = its.validatePushPullPack(); its.err != nil {
 		return
 	}
 
